@@ -58,12 +58,16 @@ Definition kind_const (k : nat) : str :=
 Definition is_manifest_kind (k : nat) : bool :=
   existsb (str_eqb (kind_const k)) IsManifest_cases.
 
-Inductive ref := RTag (t : nat) | RDig (n : nat).
+(* RStale t: the pre-repair resolver.Memory.Tag left reference t in the tag set of the
+   descriptor it was moved away from; (RStale t, n) records "t is still in tags[n]".
+   Never created by the repaired code (cfg_fixed). *)
+Inductive ref := RTag (t : nat) | RDig (n : nat) | RStale (t : nat).
 
 Definition ref_eqb (a b : ref) : bool :=
   match a, b with
   | RTag x, RTag y => Nat.eqb x y
   | RDig x, RDig y => Nat.eqb x y
+  | RStale x, RStale y => Nat.eqb x y
   | _, _ => false
   end.
 
@@ -93,13 +97,22 @@ Definition init : state :=
 
 Inductive res := Ok | ENotFound | EExists | EHang.
 
-Record cfg := { fixF1 : bool; fixF3 : bool; fixF4 : bool; fixF13 : bool }.
-Definition cfg_fixed : cfg := {| fixF1 := true; fixF3 := true; fixF4 := true; fixF13 := true |}.
-Definition cfg_orig : cfg := {| fixF1 := false; fixF3 := false; fixF4 := false; fixF13 := false |}.
+(* fixF1/F3/F4/F13: the repairs of DESIGN section 6; fixStale: resolver.Memory.Tag forgets a
+   moved reference in the old tag set; fixLeaf: Delete does not queue dangling leaves that
+   were never stored; skipLinked: a rejected *variant* of Delete that queues a referrer only
+   when all its predecessors are already queued (see C09_delete_skip_linked_refuted);
+   fixHold: Delete queues a referrer of a deleted manifest only once no surviving node lists
+   it any more (predecessors that are referrers of its own do not hold it). *)
+Record cfg := { fixF1 : bool; fixF3 : bool; fixF4 : bool; fixF13 : bool;
+                fixStale : bool; fixLeaf : bool; skipLinked : bool; fixHold : bool }.
+Definition cfg_fixed : cfg := {| fixF1 := true; fixF3 := true; fixF4 := true; fixF13 := true;
+     fixStale := true; fixLeaf := true; skipLinked := false; fixHold := true |}.
+Definition cfg_orig : cfg := {| fixF1 := false; fixF3 := false; fixF4 := false; fixF13 := false;
+     fixStale := false; fixLeaf := false; skipLinked := false; fixHold := false |}.
 
 Inductive op :=
 | OPush (n : nat) | OTag (n t : nat) | OUntag (t : nat) | ODelete (n : nat)
-| OGC | OAuto (b : bool) | OStray (s : stray).
+| OGC | OAuto (b : bool) | OStray (s : stray) | OReopen.
 
 Section Model.
 Variable succ : nat -> list nat.
@@ -117,7 +130,7 @@ Fixpoint lookup (r : ref) (ix : list (ref * nat)) : option nat :=
   end.
 
 Definition is_tag_entry (n : nat) (e : ref * nat) : bool :=
-  match fst e with RTag _ => Nat.eqb (snd e) n | RDig _ => false end.
+  match fst e with RTag _ | RStale _ => Nat.eqb (snd e) n | RDig _ => false end.
 
 (* Store.isTagged: some reference other than the digest names n *)
 Definition is_tagged (st : state) (n : nat) : bool := existsb (is_tag_entry n) (idx st).
@@ -146,19 +159,26 @@ Definition push (st : state) (n : nat) : state * res :=
         gnodes := n :: removeb n (gnodes st);
         strays := strays st; autogc := autogc st |}, Ok).
 
-Definition tag (st : state) (n t : nat) : state * res :=
+Definition tag (c : cfg) (st : state) (n t : nat) : state * res :=
   if memb n (blobs st) then
+    let stale :=
+      match lookup (RTag t) (idx st) with
+      | Some m => if fixStale c || Nat.eqb m n then [] else [(RStale t, m)]
+      | None => []
+      end in
     ({| blobs := blobs st;
-        idx := set_ref (RTag t) n (set_ref (RDig n) n (idx st));
+        idx := set_ref (RTag t) n (set_ref (RDig n) n (stale ++ idx st));
         gnodes := gnodes st; strays := strays st; autogc := autogc st |}, Ok)
   else (st, ENotFound).
 
 Definition untag (st : state) (t : nat) : state * res :=
   match lookup (RTag t) (idx st) with
   | None => (st, ENotFound)
-  | Some _ =>
+  | Some m =>
     ({| blobs := blobs st;
-        idx := filter (fun e => negb (ref_eqb (fst e) (RTag t))) (idx st);
+        (* Untag(t): index[t] goes, t leaves tags[index[t]] *)
+        idx := filter (fun e => negb (ref_eqb (fst e) (RTag t)) &&
+                                negb (ref_eqb (fst e) (RStale t) && Nat.eqb (snd e) m)) (idx st);
         gnodes := gnodes st; strays := strays st; autogc := autogc st |}, Ok)
   end.
 
@@ -171,11 +191,17 @@ Definition delete_one (st : state) (n : nat) : state * list nat * res :=
                 strays := strays st; autogc := autogc st |} in
   (st', dang, if memb n (blobs st) then Ok else ENotFound).
 
+(* Store.heldBySurvivor: a predecessor that is not queued and links to r other than as its
+   subject *)
+Definition held (g seen : list nat) (r : nat) : bool :=
+  existsb (fun p => negb (memb p seen) && negb (has_subject r p)) (preds g r).
+
 (* ---------- Store.Delete: the work queue ----------
    [seen] = everything ever queued (the repaired code queues a node once: F4);
+   [pending] = untagged referrers of deleted manifests that wait until nothing holds them;
    [ord k l] = the order in which Go's map iteration delivers the k-th batch. *)
 Fixpoint delete_loop (c : cfg) (ord : nat -> list nat -> list nat) (fuel k : nat)
-         (st : state) (queue seen : list nat) : state * res :=
+         (st : state) (queue seen pending : list nat) : state * res :=
   match fuel with
   | O => (st, EHang)
   | S fuel' =>
@@ -184,15 +210,25 @@ Fixpoint delete_loop (c : cfg) (ord : nat -> list nat -> list nat) (fuel k : nat
     | head :: q =>
       let refs :=
         if autogc st && manifest head then
-          filter (fun r => negb (fixF3 c) || negb (is_tagged st r)) (referrers (gnodes st) head)
+          filter (fun r => (negb (skipLinked c) || forallb (fun p => memb p seen) (preds (gnodes st) r))
+                           && (negb (fixF3 c) || negb (is_tagged st r)))
+                 (referrers (gnodes st) head)
         else [] in
       match delete_one st head with
       | (st', dang, Ok) =>
-        let dang' := if autogc st then filter (fun d => negb (is_tagged st' d)) dang else [] in
-        let batch := ord k (refs ++ dang') in
+        let dang' :=
+          if autogc st
+          then filter (fun d => (negb (fixLeaf c) || memb d (blobs st')) && negb (is_tagged st' d)) dang
+          else [] in
+        let batch := ord k ((if fixHold c then [] else refs) ++ dang') in
         let fresh :=
           if fixF4 c then dedup (filter (fun x => negb (memb x seen)) batch) else batch in
-        delete_loop c ord fuel' (S k) st' (q ++ fresh) (seen ++ fresh)
+        let seen1 := seen ++ fresh in
+        let pend1 := if fixHold c then pending ++ ord k refs else [] in
+        let cand := dedup (filter (fun r => negb (memb r seen1)) pend1) in
+        let ready := filter (fun r => negb (held (gnodes st') seen1 r)) cand in
+        let rest := filter (held (gnodes st') seen1) cand in
+        delete_loop c ord fuel' (S k) st' (q ++ fresh ++ ready) (seen1 ++ ready) rest
       | (st', _, e) => (st', e)
       end
     end
@@ -201,7 +237,7 @@ Fixpoint delete_loop (c : cfg) (ord : nat -> list nat -> list nat) (fuel k : nat
 Definition delete_fuel (st : state) : nat := S (S (length (gnodes st))).
 
 Definition delete (c : cfg) (ord : nat -> list nat -> list nat) (st : state) (n : nat) : state * res :=
-  delete_loop c ord (if fixF4 c then delete_fuel st else 4096) 0 st [n] [n].
+  delete_loop c ord (if fixF4 c then delete_fuel st else 4096) 0 st [n] [n] [].
 
 (* ---------- graph.Memory.IndexAll: nodes reachable through stored content ----------
    successors have smaller ids than their node (content addressing), so [k] >= n is
@@ -216,15 +252,24 @@ Fixpoint down (bl : list nat) (k n : nat) : list nat :=
 
 Definition closure (bl : list nat) (n : nat) : list nat := down bl n n.
 
+(* IndexAll also records descriptors it never has to fetch: non-manifest successors (and a
+   non-manifest root) are graph nodes whether or not their content is stored.  They matter
+   only to the pre-repair Delete ([fixLeaf] = false); the repaired Delete ignores them and
+   nothing else observes them, so the repaired model leaves them out. *)
+Definition leaf_absent (bl : list nat) (n : nat) : bool := negb (memb n bl) && negb (manifest n).
+Definition clo (c : cfg) (bl : list nat) (n : nat) : list nat :=
+  if fixLeaf c then closure bl n
+  else closure bl n ++ filter (leaf_absent bl) (n :: flat_map succ (closure bl n)).
+
 (* ---------- gcIndex ---------- *)
 Definition tagged_nodes (ix : list (ref * nat)) : list nat :=
-  flat_map (fun e => match fst e with RTag _ => [snd e] | RDig _ => [] end) ix.
+  flat_map (fun e => match fst e with RTag _ => [snd e] | _ => [] end) ix.
 
 (* digest-only entries of untagged descriptors: the candidates of the referrer pass *)
 Definition candidates (ix : list (ref * nat)) : list nat :=
   flat_map (fun e => match fst e with
                      | RDig _ => if memb (snd e) (tagged_nodes ix) then [] else [snd e]
-                     | RTag _ => [] end) ix.
+                     | _ => [] end) ix.
 
 (* the subject walk of the repaired code: follow manifestutil.Subject while the
    current manifest can be fetched; true when a subject is already in the new graph *)
@@ -262,7 +307,7 @@ Definition keep_step (c : cfg) (bl : list nat) (acc : list nat * list nat * bool
   if memb n kept then acc
   else match do_walk c bl g n with
        | None => (g, kept, ch, true)
-       | Some true => (closure bl n ++ g, n :: kept, true, hang)
+       | Some true => (clo c bl n ++ g, n :: kept, true, hang)
        | Some false => acc
        end.
 
@@ -279,7 +324,7 @@ Fixpoint gc_passes (c : cfg) (bl : list nat) (ords : nat -> list nat) (fuel i : 
 
 (* nodes that have a digest-only reference *)
 Definition digested (ix : list (ref * nat)) : list nat :=
-  flat_map (fun e => match fst e with RDig _ => [snd e] | RTag _ => [] end) ix.
+  flat_map (fun e => match fst e with RDig _ => [snd e] | _ => [] end) ix.
 
 (* [kl]: which digest-only references survive the rebuild.  The source under test drops
    those of descriptors that are neither tagged nor kept as referrers ([kl] = false); a
@@ -290,11 +335,11 @@ Definition gc_index (c : cfg) (kl : bool) (ords : nat -> list nat) (st : state)
   : option (list (ref * nat) * list nat) :=
   let ix := idx st in
   let tn := tagged_nodes ix in
-  let g1 := flat_map (closure (blobs st)) tn in
+  let g1 := flat_map (clo c (blobs st)) tn in
   match gc_passes c (blobs st) ords (S (length (candidates ix))) 0 g1 [] with
   | None => None
   | Some (g, kept) =>
-    Some (filter (fun e => match fst e with RTag _ => true | RDig _ => false end) ix
+    Some (filter (fun e => match fst e with RTag _ => true | _ => false end) ix
           ++ map (fun n => (RDig n, n))
                  (dedup tn ++ kept ++ (if kl then filter (fun n => memb n g) (digested ix) else [])), g)
   end.
@@ -319,7 +364,7 @@ Definition ord_id (k : nat) (l : list nat) : list nat := l.
 Definition step (c : cfg) (kl : bool) (st : state) (o : op) : state * res :=
   match o with
   | OPush n => push st n
-  | OTag n t => tag st n t
+  | OTag n t => tag c st n t
   | OUntag t => untag st t
   | ODelete n => delete c ord_id st n
   | OGC => gc c kl (fun _ => candidates (idx st)) st
@@ -327,6 +372,13 @@ Definition step (c : cfg) (kl : bool) (st : state) (o : op) : state * res :=
                    autogc := b |}, Ok)
   | OStray s => ({| blobs := blobs st; idx := idx st; gnodes := gnodes st;
                     strays := s :: strays st; autogc := autogc st |}, Ok)
+  (* oci.New on the same directory (index.json is up to date: AutoSaveIndex): loadIndex tags
+     every index entry and runs IndexAll from it; AutoGC is the default again *)
+  | OReopen =>
+    let ix := filter (fun e => match fst e with RStale _ => false | _ => true end) (idx st) in
+    ({| blobs := blobs st; idx := ix;
+        gnodes := dedup (flat_map (clo c (blobs st)) (map snd ix));
+        strays := strays st; autogc := true |}, Ok)
   end.
 
 End Model.
